@@ -468,6 +468,9 @@ func streamBytes(st []EnvSpec) int {
 func TestC12Sweep(t *testing.T) {
 	rec := NewRecorder("C12", "TestC12Sweep")
 	defer rec.Finish(t)
+	// a library goroutine that spins freezes the bubble's clock: the watchdog turns that into a verdict
+	w := StartSpinWatchAfter("C12", 25)
+	defer w.Stop()
 	sh, nsh := Shard()
 	idx := 0
 	run := func(c *c12Case) {
@@ -478,6 +481,7 @@ func TestC12Sweep(t *testing.T) {
 		o := &Outcome{}
 		var obs *c12Obs
 		rec.Journal(c)
+		w.Case(c)
 		synctest.Test(t, func(t *testing.T) { obs = runC12(c) })
 		judgeC12(c, obs, o)
 		rec.Eval(c, o)
@@ -662,6 +666,8 @@ func genFaults(rt *rapid.T, label string, write bool, maxN int) []Fault {
 
 func TestC12(t *testing.T) {
 	rec := NewRecorder("C12", "TestC12")
+	w := StartSpinWatchAfter("C12", 25)
+	defer w.Stop()
 	rapid.Check(t, func(rt *rapid.T) {
 		n := rapid.IntRange(1, 20).Draw(rt, "frames")
 		pad := rapid.SampledFrom([]int{0, 10, 200, 5000, 65000}).Draw(rt, "pad")
@@ -726,6 +732,7 @@ func TestC12(t *testing.T) {
 		o := &Outcome{}
 		var obs *c12Obs
 		rec.Journal(c)
+		w.Case(c)
 		rapid.SyncTest(rt, func(rt *rapid.T) { obs = runC12(c) })
 		judgeC12(c, obs, o)
 		rec.Check(rt, c, o)
